@@ -1,4 +1,5 @@
 """C01 — every cell is the nearest-generator region of its generator (necessary structural clauses)."""
+import re
 from fractions import Fraction
 from .. import interp as I, nf
 from ..nf import RF, as_rf
@@ -215,6 +216,8 @@ def clip_scenario(F, cb):
         if pth.endswith(('Vertex::from_dual', '::update_safety_radius', '::compute_boundary', 'SimulationBoundary::iloc', 'HalfSpace::right_loc',
                          'geometry::in_sphere_test_exact', 'HalfSpace::clip', 'SimpleCycle::grow', 'SimpleCycle::iter')):
             no_inline.add(bb['path'])
+        if bb['path'].startswith('<simple_cycle::') and bb['path'].endswith(' as std::iter::Iterator>::next'):
+            no_inline.add(bb['path'])      # the cycle walker stays an opaque stream (clip_walk reads positions off the adaptor chain)
     ip = I.Interp(F, no_inline=no_inline)
     cell = I.St('voronoi::convex_cell::ConvexCell', None, {}, I.Sym(nf.sym_atom('cell'), 'voronoi::convex_cell::ConvexCell<voronoi::convex_cell::WithoutFaces>'))
     selfref = ip.ref_to(cell, cb['locals'][1]['ty'], mut=True)
@@ -276,7 +279,7 @@ def r5(ctx, F, rule, sfx):
         for bl, t in calls(b):
             if callee_name(t) == fd['path']:
                 sites += 1
-    ctx.floor(rule, 'vertex creation sites' + sfx, sites, 9)
+    ctx.floor(rule, 'vertex creation sites' + sfx, sites, 2)     # at least the start cell and the clip routine (9 call sites on the pinned tree)
     # clip routine site: planes argument is the cell's own plane list (after the push), generator is the cell's
     sc = scen.build_scenario(F)
     cb = F.body(sc.clip_path)
@@ -433,14 +436,18 @@ def cycle_roles(F):
     """Private layout of SimpleCycle and its iterator by role, from the field types and from what iter() stores:
     the successor table is the Vec<usize>; the usize handed to the iterator's cursor is the start; the other is the length."""
     a = F.adt_by_path.get('simple_cycle::SimpleCycle')
-    it = F.adt_by_path.get('simple_cycle::SimpleCycle2Iterator')
+    itb = F.body_by_suffix('SimpleCycle::iter')
+    it = None
+    rty = re.sub(r"<.*$", '', (itb.get('ret') or itb['locals'][0]['ty'])).strip()
+    it = F.adt_by_path.get(rty)
     if not a or not it:
-        raise AnalysisIncomplete('SimpleCycle / SimpleCycle2Iterator not found')
+        raise AnalysisIncomplete('SimpleCycle / the walker returned by SimpleCycle::iter (%s) not found' % rty)
     fs = a['variants'][0]['fields']
     vecs = [f['name'] for f in fs if f['ty'].replace(' ', '') == 'std::vec::Vec<usize>']
     us = [f['name'] for f in fs if f['ty'] == 'usize']
     ifs = it['variants'][0]['fields']
     irefs = [f['name'] for f in ifs if f['ty'].endswith('simple_cycle::SimpleCycle') and f['ty'].startswith('&')]
+    IT = it['path']
     ius = [f['name'] for f in ifs if f['ty'] == 'usize']
     if len(vecs) != 1 or len(us) != 2 or len(fs) != 3 or len(irefs) != 1 or len(ius) != 1 or len(ifs) != 2:
         raise AnalysisIncomplete('unexpected layout of SimpleCycle (%s) or its iterator (%s)' % ([f['name'] for f in fs], [f['name'] for f in ifs]))
@@ -452,7 +459,7 @@ def cycle_roles(F):
         raise AnalysisIncomplete('iter() starts its cursor at %s' % cur)
     start = us[0] if cur == 'U0' else us[1]
     ln = us[1] if cur == 'U0' else us[0]
-    return {'ptrs': vecs[0], 'start': start, 'len': ln, 'it_cycle': irefs[0], 'it_next': ius[0]}
+    return {'ptrs': vecs[0], 'start': start, 'len': ln, 'it_cycle': irefs[0], 'it_next': ius[0], 'it_adt': IT}
 
 
 T3 = 'abc'
@@ -562,10 +569,10 @@ def r7(ctx, F, rule, sfx):
     ip3 = I.Interp(F)
     v3, _ = ip3.call_body(itb, [ip3.ref_to(cyc)])
     ok = repr(I.get_field(v3, RO['it_next'])) == 'S'
-    nb = [b for b in F.bodies if 'SimpleCycle2Iterator' in b['path'] and b['path'].endswith('::next')]
+    nb = [b for b in F.bodies if RO['it_adt'] in b['path'] and b['path'].endswith('::next')]
     if len(nb) == 1:
         ip4 = I.Interp(F)
-        st_ = I.St('simple_cycle::SimpleCycle2Iterator', 'SimpleCycle2Iterator', {RO['it_cycle']: ip4.ref_to(cyc), RO['it_next']: RF.sym('cur')})
+        st_ = I.St(RO['it_adt'], RO['it_adt'].rsplit('::', 1)[-1], {RO['it_cycle']: ip4.ref_to(cyc), RO['it_next']: RF.sym('cur')})
         r4_ = ip4.ref_to(st_, mut=True)
         v4, _ = ip4.call_body(nb[0], [r4_])
         ok = ok and isinstance(v4, I.St) and v4.variant == 'Some' and repr(v4.fields[0]) == 'cur' and repr(I.get_field(I.read_lv(r4_.lv), RO['it_next'])) == 'P[cur]'
@@ -604,11 +611,124 @@ def r7(ctx, F, rule, sfx):
     wcl = where(clipb)
     ok = len(cbe) == 1 and 'RangeFrom{start: ' in repr(cbe[0].fargs[1]) and '.vertices' in repr(cbe[0].fargs[1])
     ctx.check(rule, 'removed-vertices-passed-to-boundary' + sfx, ok, repr(cbe[0].fargs[1])[-120:] if cbe else 'no call', '&mut self.vertices[num_v..]', wcl, key_extra='clip-tail')
-    ok = len(tk) == 1 and 'SimpleCycle::iter' in repr(tk[0].fargs[0]) and repr(tk[0].fargs[1]).startswith('1 + ') and "'len'" in repr(tk[0].fargs[1])
-    ctx.check(rule, 'walk-closes-the-cycle' + sfx, ok, repr(tk[0].fargs[1])[:80] if tk else 'no take', 'boundary.iter().take(boundary.len + 1)', wcl, key_extra='clip-take')
+    wk = clip_walk(F)
+    cnt = repr(wk['count']) if wk['count'] is not None else 'unbounded'
+    ok = wk['count'] is not None and cnt.startswith('mut:') and 'compute_boundary(0, \'%s\'' % RO['len'] in cnt and 'compute_boundary' in wk['cycle']
+    ctx.check(rule, 'walk-closes-the-cycle' + sfx, ok, 'one vertex per item of a stream of %s pairs over %s' % (cnt[:60], wk['cycle'][:50]), 'len pairs (cur, next) of the reconstructed cycle: the walk takes len + 1 items', wcl, key_extra='clip-take')
     ctx.check(rule, 'cycle-grows-with-each-new-plane' + sfx, len(gr) == 1, '%d grow call(s)' % len(gr), 'one boundary.grow() per pushed plane', wcl, key_extra='clip-grow')
     if tr and cbe:
         # truncate to the same num_v the tail starts from
         m = repr(cbe[0].fargs[1])
         ok = repr(tr[0].fargs[1]) in m
         ctx.check(rule, 'truncate-drops-exactly-the-removed' + sfx, ok, repr(tr[0].fargs[1])[:60], 'self.vertices.truncate(num_v)', wcl, key_extra='clip-truncate')
+
+
+# ------------------------------------------------------------------------------------------------------------------
+def _walk_descriptor(v):
+    """Position arithmetic of a stream derived from the cycle walk W = (start, ptrs[start], ...): -> dict(off, bound, src) for a
+    plain stream (its t-th item is W[off + t], t < bound; bound None = unbounded) or dict(pair=(a, b), bound) for a zip."""
+    ch, src = stream_chain(I.frozen(v))
+    d = None
+    if isinstance(src, I.St) and src.base is not None:
+        # a walker whose fields were advanced by an opaque `next`: W after one item
+        for fv in src.fields.values():
+            at = fv.atom if isinstance(fv, I.Sym) else (I.single_atom(fv) if isinstance(fv, RF) else None)
+            if at is not None and at.kind == 'app' and at.name.startswith('mut:') and at.name.endswith('::next'):
+                inner = [a for a in at.args[1:] if not isinstance(a, (int, str))]
+                if inner:
+                    d = _walk_descriptor(inner[0])
+                    d['off'] = d['off'] + 1
+                    if d['bound'] is not None:
+                        d['bound'] = d['bound'] - 1
+                    break
+    for name, args in reversed(ch):
+        if name == 'iter' and d is None:
+            d = {'off': RF.const(0), 'bound': None, 'src': src}
+        elif d is None:
+            raise AnalysisIncomplete('stream over %s does not start at SimpleCycle::iter' % repr(src)[:60])
+        elif name in ('into_iter', 'by_ref', 'fuse'):
+            continue
+        elif name.startswith('mut:') and name.endswith('next'):
+            if 'pair' in d:
+                raise AnalysisIncomplete('item taken out of a zipped walk')
+            d['off'] = d['off'] + 1
+            if d['bound'] is not None:
+                d['bound'] = d['bound'] - 1
+        elif name == 'take':
+            n = as_rf(args[0])
+            d['bound'] = n if d['bound'] is None else nf.fn_min(d['bound'], n)
+        elif name == 'skip':
+            if 'pair' in d:
+                raise AnalysisIncomplete('skip on a zipped walk')
+            d['off'] = d['off'] + as_rf(args[0])
+            if d['bound'] is not None:
+                d['bound'] = d['bound'] - as_rf(args[0])
+        elif name == 'zip':
+            o = _walk_descriptor(args[0])
+            if 'pair' in d or 'pair' in o:
+                raise AnalysisIncomplete('nested zip of walks')
+            b = d['bound'] if o['bound'] is None else (o['bound'] if d['bound'] is None else nf.fn_min(d['bound'], o['bound']))
+            d = {'pair': (d, o), 'bound': b, 'src': d['src']}
+        else:
+            raise AnalysisIncomplete('adaptor %s on the cycle walk is not modelled' % name)
+    if d is None:
+        raise AnalysisIncomplete('not a stream over the cycle walk: %s' % repr(v)[:80])
+    return d
+
+
+def clip_walk(F):
+    """How the clip routine turns the reconstructed boundary cycle into new vertices, as positions on the walk
+    W = (start, ptrs[start], ptrs[ptrs[start]], ...): -> dict(cur=offset of the first plane, next=offset of the second plane,
+    count=number of vertices created, cycle=text of the cycle walked, len=text of its length, event=the from_dual event)."""
+    sc = scen.build_scenario(F)
+    cb = F.body(sc.clip_path)
+    ip, selfref = clip_scenario(F, cb)
+    fd = [e for e in ip.events if e.callee and strip_generics(e.callee).endswith('Vertex::from_dual') and e.body is cb]
+    if len(fd) != 1:
+        raise AnalysisIncomplete('vertex creation sites in the clip routine: %d' % len(fd))
+    e = fd[0]
+    L = loop_of_event(ip, e)
+    if L is None:
+        raise AnalysisIncomplete('vertex creation is not in a loop')
+    nx = [x for x in next_events(ip, cb) if x.in_loop and event_block(x) in L['blocks']]
+    if len(nx) != 1:
+        raise AnalysisIncomplete('the vertex creation loop reads %d streams' % len(nx))
+    rec, li = loop_record_of(ip, nx[0])
+    d = _walk_descriptor(rec['init'][li])
+    item = I.get_field(I.downcast(nx[0].result, 'Some'), 0)
+    a0, a1 = e.fargs[0], e.fargs[1]
+
+    def pos_of(x):
+        """offset on the walk of a from_dual argument"""
+        tx = repr(I.frozen(x))
+        if 'pair' in d:
+            for k in (0, 1):
+                if tx == repr(I.frozen(I.get_field(item, k))):
+                    return d['pair'][k]['off']
+            return None
+        if tx == repr(I.frozen(item)):
+            return d['off']
+        # loop-carried: initialised with an item taken from the walk before the loop, then the previous item
+        for i, (a, p) in enumerate(zip(rec['init'], rec['phi'])):
+            if p is not None and a is not None and a is not p and repr(I.frozen(p)) == tx:
+                backs = [vals.get(i) for g, vals in rec['back']]
+                if not backs or not all(repr(I.frozen(b)) == repr(I.frozen(item)) for b in backs):
+                    return None
+                ini = I.frozen(a)
+                at = ini.atom if isinstance(ini, I.Sym) else I.single_atom(as_rf(ini)) if isinstance(ini, RF) else None
+                # unwrap(next(X)) / next(X).Some.0
+                while at is not None and at.kind == 'app' and at.name in ('unwrap', 'field'):
+                    at = at.args[0].atom if isinstance(at.args[0], I.Sym) else at.args[0]
+                    if not isinstance(at, nf.Atom):
+                        at = None
+                if at is None or at.kind != 'app' or not (at.name.startswith('call:') and at.name.endswith('::next')):
+                    return None
+                d0 = _walk_descriptor(at.args[0])
+                if 'pair' in d0 or repr(d0['src']) != repr(d['src']):
+                    return None
+                # the loop stream must continue right after that item
+                if not (d['off'] - d0['off'] - 1).is_zero():
+                    return None
+                return d['off'] - 1
+        return None
+    return {'cur': pos_of(a0), 'next': pos_of(a1), 'count': d['bound'], 'cycle': repr(d['src']), 'event': e, 'body': cb, 'ip': ip}
